@@ -867,6 +867,20 @@ theorem fact_key_lookup_iterates_the_relationship :
 /-- the status list issuer rebuilds a list from the issuer record WITH its revocations on renewal (Credential) and on Revoke -/
 theorem fact_status_list_renewal_loads_revocations :
     Nuts.Facts.C01.statusListIssuerPreloads = ["Credential:Preload(\"Revocations\")", "Revoke:Preload(\"Revocations\")"] := by rfl
+/-- the JSON-LD engine the verifier is wired with fetches unlisted contexts only when the node is NOT in strict mode: Configure hands
+    `!Strictmode` to NewContextLoader, which installs the allow-list filter unless that flag is set (the canonicalisation contract of
+    `tamper_evident` presupposes a FIXED set of contexts) -/
+theorem fact_strict_mode_fixes_the_contexts :
+    Nuts.Facts.C01.contextLoaderArgs = ["!serverConfig.Strictmode", "j.config.Contexts"] ∧
+    Nuts.Facts.C01.contextLoaderGuards = ["if !allowUnlistedExternalCalls", "if err != nil"] := by
+  refine ⟨by rfl, by rfl⟩
+/-- the verifier holds only its collaborators (resolvers, JSON-LD engine, store, trust config, status lists): no cache of resolved keys
+    or verdicts, so every call resolves the key at ITS validation time (the model's `verify` is a function of the call's Env); and the
+    JWT path resolves through the key resolver as well -/
+theorem fact_verifier_is_stateless :
+    Nuts.Facts.C01.verifierFields = ["verifier.didResolver resolver.DIDResolver", "verifier.keyResolver resolver.KeyResolver", "verifier.jsonldManager jsonld.JSONLD", "verifier.store Store", "verifier.trustConfig *trust.Config", "verifier.<embedded> signatureVerifier", "verifier.credentialStatus revocation.StatusList2021Verifier", "signatureVerifier.keyResolver resolver.KeyResolver", "signatureVerifier.jsonldManager jsonld.JSONLD"] ∧
+    Nuts.Facts.C01.resolveSigningKeyReturns = [" => sv.keyResolver.ResolveKeyByID(kid,metadata,resolver.NutsSigningKeyType)"] := by
+  refine ⟨by rfl, by rfl⟩
 theorem fact_max_skew : Nuts.Facts.C01.maxSkewMs = 5000 := by decide
 theorem fact_supported_algs : Nuts.Facts.C01.supportedAlgs = ["ES256", "EdDSA", "ES384", "ES512", "PS256", "PS384", "PS512"] := by decide
 theorem fact_signing_key_relation : Nuts.Facts.C01.signingKeyRelation = "AssertionMethod" := by decide
